@@ -293,6 +293,23 @@ FROZEN_NAMES = ['add_node', 'add_nodes_from', 'remove_node', 'remove_nodes_from'
                 'remove_edges_from', 'clear', 'clear_edges']
 
 
+def _frozen_flag_by_execution():
+    """is_frozen(G) is False on a fresh graph and True after freeze(G), on both classes (by execution)"""
+    import dynetx as dn
+    from dynetx.classes import function as fmod
+    for cls in (dn.DynGraph, dn.DynDiGraph):
+        G = cls()
+        try:
+            if fmod.is_frozen(G) is not False and fmod.is_frozen(G):
+                return False, 'is_frozen(fresh %s) is true' % cls.__name__
+            fmod.freeze(G)
+            if not fmod.is_frozen(G):
+                return False, 'is_frozen(freeze(%s())) is false' % cls.__name__
+        except Exception as ex:
+            return False, 'is_frozen / freeze raised %r on a %s' % (ex, cls.__name__)
+    return True, 'by execution on graphs of both classes: is_frozen is False before freeze() and True after it'
+
+
 def ast_obligations(repo='/repo'):
     """obligations read off /repo's source: the decorator raises before anything else; every listed name is
     blocked (directly decorated, or inherited code that calls a decorated override before any adjacency write);
@@ -309,6 +326,29 @@ def ast_obligations(repo='/repo'):
                       and any('decorator' in ast.unparse(d) for d in inner[0].decorator_list)
                       and isinstance(f.body[-1], ast.Return) and ast.unparse(f.body[-1].value) == inner[0].name)
                 detail = 'body of %s: %s' % (inner[0].name, '; '.join(ast.unparse(x) for x in body)[:120])
+    if not ok:
+        # another spelling of the decorator: decided by execution - a decorated probe must raise NetworkXNotImplemented for several
+        # argument lists without its body running
+        try:
+            import networkx as nx
+            from dynetx.utils import decorators as dmod
+            ran = []
+
+            @dmod.not_implemented()
+            def probe(*a, **k):
+                ran.append(1)
+            good = True
+            for a, k in (((), {}), ((1,), {}), ((1, 2), {'x': 3}), ((None, [1], 'a'), {})):
+                try:
+                    probe(*a, **k)
+                    good = False
+                except nx.NetworkXNotImplemented:
+                    pass
+            ok = good and not ran
+            detail = 'by execution: a decorated probe raises NetworkXNotImplemented for every argument list tried and its body never runs' if ok else \
+                     'by execution: a decorated probe did not raise NetworkXNotImplemented (or its body ran)'
+        except Exception as ex:
+            detail = 'by execution: %r' % (ex,)
     obs.append({'name': 'C19.decorator.raises_before_anything_else', 'ok': ok, 'detail': detail})
     for mod, cls in (('dyngraph', 'DynGraph'), ('dyndigraph', 'DynDiGraph')):
         tree = ast.parse(open(os.path.join(repo, 'dynetx/classes/%s.py' % mod)).read())
@@ -329,6 +369,21 @@ def ast_obligations(repo='/repo'):
         ok = (len(body) == 1 and isinstance(body[0], ast.Raise) and fr.args.vararg is not None and fr.args.kwarg is not None
               and not fr.args.args)
         detail = 'def frozen(%s): %s' % (ast.unparse(fr.args), '; '.join(ast.unparse(x) for x in body)[:100])
+    if fr is not None and not ok:
+        try:
+            import networkx as nx
+            from dynetx.classes import function as fmod
+            good = True
+            for a, k in (((), {}), ((1,), {}), ((1, 2), {'x': 3}), ((None, [1], 'a'), {'attr_dict': {}})):
+                try:
+                    fmod.frozen(*a, **k)
+                    good = False
+                except nx.NetworkXError:
+                    pass
+            ok = good
+            detail = 'by execution: frozen() raises NetworkXError for every argument list tried' if ok else 'by execution: frozen() did not raise NetworkXError'
+        except Exception as ex:
+            detail = 'by execution: %r' % (ex,)
     obs.append({'name': 'C19.frozen.raises_for_every_argument_list', 'ok': ok, 'detail': detail})
     fz = funcs.get('freeze')
     assigned = set()
@@ -376,11 +431,20 @@ def ast_obligations(repo='/repo'):
                     modes.append('G.%s%r on a frozen %s: %s' % (n, ARGS[n], cls.__name__, 'raised, but the graph changed' if raised else 'did not raise NetworkXError'))
             how[n] = 'by execution of freeze() on graphs of both classes: ' + '; '.join(modes)
     src_fz = ast.unparse(fz) if fz is not None else ''
-    obs.append({'name': 'C19.freeze.sets_frozen_flag', 'ok': 'frozen = True' in src_fz.replace("'frozen', True", 'frozen = True'), 'detail': 'G.frozen = True'})
+    flag_ok = 'frozen = True' in src_fz.replace("'frozen', True", 'frozen = True')
+    flag_how = 'AST: G.frozen = True'
+    if not flag_ok:
+        flag_ok, flag_how = _frozen_flag_by_execution()
+    obs.append({'name': 'C19.freeze.sets_frozen_flag', 'ok': flag_ok, 'detail': flag_how})
     for n in FROZEN_NAMES:
         obs.append({'name': 'C19.freeze.rebinds.%s' % n, 'ok': n in assigned, 'detail': how[n]})
     isf = funcs.get('is_frozen')
-    obs.append({'name': 'C19.is_frozen.reads_flag', 'ok': isf is not None and 'G.frozen' in ast.unparse(isf), 'detail': ast.unparse(isf)[:120] if isf else ''})
+    is_ok = isf is not None and 'G.frozen' in ast.unparse(isf)
+    is_how = ast.unparse(isf)[:120] if isf else ''
+    if isf is not None and not is_ok:
+        # another spelling (getattr with a default, ...): decided by execution on graphs of both classes, fresh and frozen
+        is_ok, is_how = _frozen_flag_by_execution()
+    obs.append({'name': 'C19.is_frozen.reads_flag', 'ok': is_ok, 'detail': is_how})
     return obs
 
 
